@@ -625,6 +625,24 @@ async fn faulty_peer(addr: std::net::SocketAddr, tls: bool, dict: Arc<Dictionary
                 tokio::time::sleep(Duration::from_millis(5)).await;
             }
         }
+        // a peer with a tiny receive buffer that pipelines three requests (each answered with 3 KiB: more than its window takes, less than a send buffer holds), reads nothing, and then sends a
+        // complete malformed frame: when the server gives the connection up, answers are still queued towards a peer that is not reading
+        "unread-then-malformed" => {
+            let sock = match tokio::net::TcpSocket::new_v4() { Ok(s) => s, Err(_) => return };
+            let _ = sock.set_recv_buffer_size(1024);
+            if let Ok(mut c) = sock.connect(addr).await {
+                if !tls {
+                    let _ = c.set_nodelay(true);
+                    let long = "u".repeat(3000);
+                    for i in 0..3u32 {
+                        let _ = c.write_all(&request(&dict, &format!("{}{}", long, i), 700 + i)).await;
+                    }
+                    tokio::time::sleep(Duration::from_millis(300)).await;
+                    let _ = c.write_all(&[1, 0, 0, 28, 0x80, 0, 1, 16, 0, 0, 0, 4, 0, 0, 0, 1, 0, 0, 0, 1, 0, 0, 1, 7, 0x40, 0, 0, 4]).await;
+                }
+                tokio::time::sleep(hold).await;
+            }
+        }
         // abrupt reset right after connecting
         "reset" => { if let Ok(s) = raw().await { let _ = s.set_linger(Some(Duration::from_secs(0))); drop(s); } }
         k => {
@@ -749,7 +767,7 @@ pub fn scenario(st: &State, t: &mut Toks) -> PResult<String> {
         tokio::time::sleep(Duration::from_millis(seed % 20)).await;
         let hold = Duration::from_secs(30);
         let mut fh = Vec::new();
-        let slow_fault = faults.iter().any(|f| f == "vanish-before-answer" || f == "announce-leave" || f == "reset-same-port");
+        let slow_fault = faults.iter().any(|f| f == "vanish-before-answer" || f == "announce-leave" || f == "reset-same-port" || f == "unread-then-malformed");
         for f in faults {
             fh.push(tokio::spawn(faulty_peer(addr, tls, Arc::clone(&dict), f, hold)));
             tokio::time::sleep(Duration::from_millis((seed >> 8) % 10)).await;
